@@ -11,4 +11,5 @@ theorem flag_badMetaSetsErr : Generated.cfg.badMetaSetsErr = true := by decide
 theorem flag_closeSendNoopWhenDone : Generated.cfg.closeSendNoopWhenDone = true := by decide
 theorem sk_runStream : Generated.sk_server_handler_runStream = Expected.sk_server_handler_runStream := by decide
 theorem sk_newStream : Generated.sk_client_ClientConn_newStream = Expected.sk_client_ClientConn_newStream := by decide
+theorem sk_client_ClientConn_invoke : Generated.sk_client_ClientConn_invoke = Expected.sk_client_ClientConn_invoke := by decide
 end Goat.Tie.C20
